@@ -225,8 +225,48 @@ def replay(ctx, name, prog, scheds, timeout='500ms'):
 LIN_CFG = 'SPECIFICATION Spec\nCHECK_DEADLOCK FALSE\nINVARIANT NotAccepted\nCONSTRAINT HighWater\nPOSTCONDITION ReportHighWater\n'
 
 
-def write_history(f, cap, events):
-    f.write(json.dumps({'e': 'reset', 'cap': cap, 'p': '', 'op': '', 'v': 0, 'r': {'t': 'none'}, 'bp': False}) + '\n')
+def mark_backpressure(events):
+    """bp flag of every `ret` of an add: the counting rule applies unless a
+    RemoveAll is in flight during the add; `rs` marks the return of a RemoveAll
+    (the counts restart there)"""
+    pending_clear = 0
+    tainted = {}
+    for e in events:
+        if e['e'] == 'inv':
+            if e.get('op') == 'clear':
+                pending_clear += 1
+                for p in tainted:
+                    tainted[p] = True
+            tainted[e['p']] = pending_clear > 0
+            e['_op'] = e.get('op')
+        else:
+            op = None
+            for e2 in events:
+                pass
+    # second pass with explicit pairing
+    pend = {}
+    pending_clear = 0
+    dirty = {}
+    for e in events:
+        if e['e'] == 'inv':
+            pend[e['p']] = e.get('op')
+            if e.get('op') == 'clear':
+                pending_clear += 1
+                for p in dirty:
+                    dirty[p] = True
+            dirty[e['p']] = pending_clear > 0
+        else:
+            op = pend.pop(e['p'], None)
+            e['bp'] = (op == 'add') and not dirty.get(e['p'], False)
+            e['rs'] = (op == 'clear')
+            if op == 'clear':
+                pending_clear -= 1
+    return events
+
+
+def write_history(f, cap, events, end=False):
+    events = mark_backpressure([dict(e) for e in events])
+    f.write(json.dumps({'e': 'reset', 'cap': cap, 'p': '', 'op': '', 'v': 0, 'r': {'t': 'none'}, 'bp': False, 'rs': False}) + '\n')
     for i, e in enumerate(events):
         r = e.get('r') or {'t': 'none'}
         if e['e'] == 'inv':
@@ -238,7 +278,9 @@ def write_history(f, cap, events):
                         r = e2.get('r') or {'t': 'none'}
                     break
         f.write(json.dumps({'e': e['e'], 'p': e['p'], 'op': e.get('op', ''), 'v': e.get('v', 0),
-                            'r': r, 'bp': bool(e.get('bp'))}) + '\n')
+                            'r': r, 'bp': bool(e.get('bp')), 'rs': bool(e.get('rs'))}) + '\n')
+    if end:
+        f.write(json.dumps({'e': 'end', 'cap': cap, 'p': '', 'op': '', 'v': 0, 'r': {'t': 'none'}, 'bp': False, 'rs': False}) + '\n')
 
 
 def complete(events):
@@ -269,8 +311,9 @@ def _lin_run(ctx, items, tag, diag):
     with open(tf, 'w') as f:
         for key, cap, events in items:
             starts.append(n + 1)
-            write_history(f, cap, events)
-            n += 1 + len(events)
+            incomplete = not complete(events)
+            write_history(f, cap, events, end=incomplete)
+            n += 1 + len(events) + (1 if incomplete else 0)
     code, out = ctx.tlc('TraceQueueLin', LIN_CFG if diag else LIN_FAST, env={'TRACE': tf}, workers=1 if diag else 2,
                         timeout=1800, name='QL', heap='3g', jvm=() if diag else DEQUE)
     if 'Invariant NotAccepted is violated' in out:
